@@ -1348,6 +1348,25 @@ func lex3(c *Ctx) {
 		c.Bad(Q(fn)+":main-loop", fn.Pos(), "no scanning loop")
 		return
 	}
+	// success only at the end of the input: a nil error is returned only once the main loop has run out
+	// (or the input is empty); an early "nothing to report" would drop the rest of the spec unread
+	{
+		cut := map[ir.Edge]bool{}
+		if len(main.Succs) == 2 {
+			cut[ir.Edge{From: main, To: main.Succs[1]}] = true
+		}
+		for _, e := range lenOnlyZeroEdgesP(fn, m.isUsage) {
+			cut[e] = true
+		}
+		reach := ir.Reach(fn.Blocks[0], nil, cut)
+		okEnd, whyEnd := true, ""
+		for _, r := range ir.ReturnWays(fn) {
+			if len(r.Results) == 2 && ir.IsNilConst(r.Results[1]) && r.ReachableUnder(reach, cut) {
+				okEnd, whyEnd = false, "the scanner can report success at "+c.P.Pos(r.Pos())+" before the input is exhausted: the rest of the spec is dropped unread"
+			}
+		}
+		c.Check(okEnd, Q(fn)+":success-at-end", fn.Pos(), "a nil error is returned only when the input is exhausted", whyEnd)
+	}
 	emitBlock := map[*ssa.BasicBlock]bool{}
 	for _, es := range m.emitSites() {
 		emitBlock[es.in.Block()] = true
@@ -1535,6 +1554,24 @@ func lex4(c *Ctx) {
 					if m.isUsage(x.X) {
 						if start != nil && x.Low == start && x.High != nil && m.isPosLoad(x.High) {
 							return true
+						}
+						// usage[start:end] with end the value the position is set to right after the emit
+						// (a scan helper said where the token ends; the cursor follows)
+						if start != nil && x.High != nil && (x.Low == start || (x.Low != nil && m.isPosLoad(x.Low) && m.isPosLoad(start) && m.sameVersion(x.Low, start))) {
+							follows := false
+							for _, st := range m.stores {
+								if st.Val == x.High && st.Block() == cv.Block() && ir.IndexIn(st) > ir.IndexIn(cv) {
+									follows = true
+									for i := ir.IndexIn(cv) + 1; i < ir.IndexIn(st); i++ {
+										if other, isSt := cv.Block().Instrs[i].(*ssa.Store); isSt && m.isPosAddr(other.Addr) {
+											follows = false
+										}
+									}
+								}
+							}
+							if follows {
+								return true
+							}
 						}
 						// a suffix taken directly: usage[start+k:pos]
 						if bo, isBo := x.Low.(*ssa.BinOp); isBo && bo.Op == token.ADD && start != nil && bo.X == start && x.High != nil && m.isPosLoad(x.High) {
@@ -1752,6 +1789,22 @@ func lex4(c *Ctx) {
 					return
 				}
 				if k, isK := ir.ConstInt(x.Y); isK && k == '<' && ir.HoldsAt(x, x.Op == token.EQL, cv.Block()) {
+					opened = true
+				}
+			})
+			// the same test spelt strings.HasPrefix(usage[p:], "<")
+			ir.Instrs(fn, func(in ssa.Instruction) {
+				call, isCall := in.(*ssa.Call)
+				if !isCall {
+					return
+				}
+				if f := ir.Static(call); f == nil || !ir.IsStdFunc(f, "strings", "HasPrefix") {
+					return
+				}
+				if k, isK := ir.ConstString(call.Call.Args[1]); !isK || k != "<" {
+					return
+				}
+				if sl, isSl := call.Call.Args[0].(*ssa.Slice); isSl && m.isUsage(sl.X) && sl.High == nil && ir.HoldsAt(call, true, cv.Block()) {
 					opened = true
 				}
 			})
